@@ -6,7 +6,7 @@
 
    Mirrors, as they are today:
      kmip/pie/sqltypes.py   EnumType / UsageMaskType                      sql_enum_out/in, sql_mask_out/in
-     kmip/pie/objects.py    Key.key_wrapping_data setter / getter         kc_set / kc_get (the any() collapsing rule)
+     kmip/pie/objects.py    Key.key_wrapping_data setter / getter         kc_set / kc_get (the _any_set collapsing rule)
      kmip/pie/factory.py    ObjectFactory._build_key_wrapping_data        kwd_to_dict
                             ObjectFactory._build_pie_* / _build_core_*    core_to_pie / pie_to_core
      kmip/core/objects.py   KeyWrappingData(dict), EncryptionKeyInformation(dict)  (the `if not value` rules)  dict_to_kwd
@@ -66,10 +66,13 @@ Definition t_enum (o : option Z) : bool := match o with Some _ => true | None =>
 Definition t_int (o : option Z) : bool := match o with Some z => negb (z =? 0) | None => false end.
 Definition t_bool (o : option bool) : bool := match o with Some b => b | None => false end.
 Definition t_seq (o : option (list Z)) : bool := match o with Some (_ :: _) => true | _ => false end.
+(* `_any_set` of kmip/pie/objects.py (fix 46c741e): a stored field counts when it is not None (and not the empty dict);
+   False, 0, b'' and '' are values *)
+Definition is_set {A : Type} (o : option A) : bool := match o with Some _ => true | None => false end.
 Definition cp_any (c : cparams) : bool :=
-  t_enum (cp_bcm c) || t_enum (cp_pad c) || t_enum (cp_hash c) || t_enum (cp_role c) || t_enum (cp_dsa c) || t_enum (cp_alg c)
-  || t_bool (cp_riv c) || t_int (cp_ivl c) || t_int (cp_tagl c) || t_int (cp_fixl c) || t_int (cp_invl c)
-  || t_int (cp_ctrl c) || t_int (cp_icv c).
+  is_set (cp_bcm c) || is_set (cp_pad c) || is_set (cp_hash c) || is_set (cp_role c) || is_set (cp_dsa c) || is_set (cp_alg c)
+  || is_set (cp_riv c) || is_set (cp_ivl c) || is_set (cp_tagl c) || is_set (cp_fixl c) || is_set (cp_invl c)
+  || is_set (cp_ctrl c) || is_set (cp_icv c).
 
 (* kmip.core structures as they arrive from the wire: wrapping method and the key identifiers are mandatory there *)
 Record keyinfo := mkKI { ki_uid : str; ki_cp : option cparams }.
@@ -114,15 +117,15 @@ Definition kc_set (d : option kwdict) : kcols :=
                    (wd_mac d) (wd_iv d) (wd_enc d)
   end.
 
-(* Key.key_wrapping_data getter: columns -> dict, with the any() collapsing rule *)
+(* Key.key_wrapping_data getter: columns -> dict; a sub-dictionary none of whose fields is set collapses to {} *)
 Definition ki_get (uid : option str) (cp : cparams) : option kidict :=
   let cpd := if cp_any cp then Some cp else None in
-  if t_seq uid || cp_any cp then Some (mkKID uid cpd) else None.
+  if is_set uid || cp_any cp then Some (mkKID uid cpd) else None.
 Definition t_kid (d : option kidict) : bool := match d with Some _ => true | None => false end.
 Definition kc_get (k : kcols) : option kwdict :=
   let e := ki_get (kc_euid k) (kc_ecp k) in
   let m := ki_get (kc_muid k) (kc_mcp k) in
-  if t_enum (kc_method k) || t_kid e || t_kid m || t_seq (kc_mac k) || t_seq (kc_iv k) || t_enum (kc_enc k)
+  if is_set (kc_method k) || t_kid e || t_kid m || is_set (kc_mac k) || is_set (kc_iv k) || is_set (kc_enc k)
   then Some (mkKWD (kc_method k) e m (kc_mac k) (kc_iv k) (kc_enc k)) else None.
 
 (* `if key_wrapping_data: KeyWrappingData(dict)`: dict -> core.  `if not value` turns {} into absent;
